@@ -894,6 +894,7 @@ def poll_body(sid, version, field, nat="unknown", clients=0, typ="standalone", o
 
 
 NATNAME = {"u": "unrestricted", "r": "restricted", "k": "unknown"}
+PROXY_TYPES = ["standalone", "webext", "badge", "iptproxy", "", "someembedder", "WebExt", "webext ", None]   # None = no Type member
 
 
 def gen_bseq(ctx):
@@ -947,6 +948,25 @@ def gen_bseq(ctx):
     for b in shapes:
         good = poll_body("s2", "1.3", b"net$", clients=8)
         out.append((al, pr, [("b", b), ("c", "k"), ("b", good), ("b", b.replace(b'"s1"', b'"s3"')), ("c", "k"), ("c", "k")], "bseq-wire-shapes"))
+    # (b') the announced proxy Type x legacy / pattern-carrying x presumed pattern covering or not: the verdict must
+    # not depend on the type (messages.KnownProxyTypes, the empty string, an unknown name, no Type member at all)
+    for al, pr in cfgs if thorough else cfgs[:4] + [rng.choice(cfgs[4:])]:
+        suf = new_matcher(al)[1]
+        sup, nonsup = (b"net$" if not new_matcher(al)[0] else al), b"x" + suf + b"$"
+        for mode in ("legacy", "pattern-nonsuperset", "pattern-superset"):
+            types = list(PROXY_TYPES)
+            rng.shuffle(types)
+            counts = rng.sample(range(0, 64), len(types))
+            evs = []
+            for j, ty in enumerate(types):
+                f = {"legacy": rng.choice([None, None, "null"]), "pattern-nonsuperset": nonsup, "pattern-superset": rng.choice([sup, al])}[mode]
+                ver = rng.choice(["1.0", "1.1", "1.2", "1.3"]) if mode == "legacy" else rng.choice(["1.2", "1.3", "1.0"])
+                b = poll_body("s%d" % (j + 1), ver, f, nat=NATNAME[rng.choice("uurk")], clients=counts[j], typ=ty if ty is not None else "standalone")
+                if ty is None:
+                    b = b.replace(b'"Type":"standalone",', b"")
+                evs.append(("b", b))
+            evs += [("c", rng.choice("ku")) for _ in range(4)]
+            out.append((al, pr, evs, "bseq-proxy-type-x-" + mode))
     # (c) random histories with re-installations
     for _ in range(60 if not thorough else 1500):
         al, pr = rng.choice(cfgs)
